@@ -42,10 +42,16 @@ class ExecHandler(Virtual):
         if self.selectorargs:
             args.extend(self.selectorargs.split(" "))
 
-        if not self.protocol.check_tls():
+        # Only a plain descriptor can be handed to the child: not a TLS stream
+        # (the output would bypass the session) nor a memory buffer (the WAP
+        # front end converts text/plain documents through one).
+        try:
+            direct = not self.protocol.check_tls() and wfile.fileno() >= 0
+        except (AttributeError, OSError):
+            direct = False
+        if direct:
             subprocess.run(args, env=newenv, stdout=wfile)
         else:
-            # We can't pass the file handler because it's wrapped in a TLS context.
-            # So grab the output from the CGI script and send it directly.
+            # Grab the output from the CGI script and send it directly.
             resp = subprocess.run(args, env=newenv, capture_output=True)
             wfile.write(resp.stdout)
